@@ -435,7 +435,7 @@ func runClientLife(ws []string) string {
 			util.Fail(fmt.Sprintf("C17: LocalAddr of a live connection changed from %s to %s after another connection was closed and pooled memory was reused", wantL, got))
 		}
 		if r, err := net.ResolveTCPAddr(network, address); err == nil && network != "unix" && network != "udp" && r.String() != address {
-			util.Fail(fmt.Sprintf("C12: memory of package net was handed out by the byte-slice pool: %s now resolves to %s", address, r))
+			util.Fail(fmt.Sprintf("C12/C17: memory of package net was handed out by the byte-slice pool: %s now resolves to %s", address, r))
 		}
 	}
 	// some connections end before the shutdown
